@@ -6,7 +6,8 @@ import json, os, shutil, subprocess, sys
 
 prop = sys.argv[1]
 suffix = sys.argv[2] if len(sys.argv) > 2 else "a"
-src = f"/tmp/seed_{prop}/seed"
+wtsrc = f"/tmp/seed2_{prop}" if suffix == "b" else f"/tmp/seed_{prop}"
+src = f"{wtsrc}/seed"
 dst = f"/verif/seeded/{prop}_{suffix}"
 wt = "/tmp/vp_confirm"
 subprocess.run(["git", "-C", "/repo", "worktree", "remove", "--force", wt], capture_output=True)
@@ -17,7 +18,7 @@ try:
     d0 = subprocess.run(["/venv/bin/python", f"{src}/demo.py"], env=env, capture_output=True, text=True, cwd=wt)
     ran.append(f"demo.py on unmodified HEAD: exit {d0.returncode}")
     # regenerate the diff from the agent's worktree (the authoritative change)
-    diff = subprocess.run(["git", "-C", f"/tmp/seed_{prop}", "diff", "--", "src"], capture_output=True, text=True).stdout
+    diff = subprocess.run(["git", "-C", wtsrc, "diff", "--", "src"], capture_output=True, text=True).stdout
     os.makedirs(dst, exist_ok=True)
     open(f"{dst}/patch.diff", "w").write(diff)
     a = subprocess.run(["git", "-C", wt, "apply", f"{dst}/patch.diff"], capture_output=True, text=True)
@@ -27,7 +28,7 @@ try:
     d1 = subprocess.run(["/venv/bin/python", f"{src}/demo.py"], env=env, capture_output=True, text=True, cwd=wt)
     ran.append(f"demo.py with the change: exit {d1.returncode}: {d1.stdout.strip()[:300]}")
     ok = d0.returncode == 0 and a.returncode == 0 and t.returncode == 0 and d1.returncode == 1
-    for f in ("demo.py", "notes.md"):
+    for f in ("demo.py", "notes.md", "preexisting.md"):
         if os.path.exists(f"{src}/{f}"):
             shutil.copy(f"{src}/{f}", f"{dst}/{f}")
     notes = open(f"{dst}/notes.md").read() if os.path.exists(f"{dst}/notes.md") else ""
